@@ -124,7 +124,7 @@ pub fn gen_c05(rng: &mut Rng, n: usize, out: &mut Vec<String>) {
         let what = rng.below(3);
         let is_kw = |t: &str| t == "proc" || t == "type";
         // tokens that open a construct (and so invite the parser to read on) more often than their share
-        const OPENERS: &[&str] = &["var", "if", "while", "else", "ref", "array", "of", "{", "(", "[", ":=", ":", ",", "x", "-"];
+        const OPENERS: &[&str] = &["var", "if", "while", "else", "ref", "array", "of", "{", "(", "[", ":=", ":", ",", "x", "-", "\u{a7}", "\u{20ac}", "\u{1F600}", "\u{e9}"];
         let repl = if rng.chance(1, 3) { *rng.pick(OPENERS) } else { *rng.pick(gen_prog::TOKEN_ALPHABET) };
         match what {
             0 => {
